@@ -75,10 +75,11 @@ def mkRect (a b : Pt) (filled broken : Bool) (radius : Option Int := none) : Fra
 def listMin (l : List Int) (d : Int) : Int := l.foldl (fun a b => if b < a then b else a) (l.headD d)
 def listMax (l : List Int) (d : Int) : Int := l.foldl (fun a b => if b > a then b else a) (l.headD d)
 
-/-- `Bounds::bounds`: `(mins, maxs)` of the axis-aligned bounding box. For a text the box is the
-degenerate one of `text.rs:222-229` (width = number of *bytes* of the text, not scaled);
-`byteLen` supplies that count. -/
-def Frag.bounds (byteLen : List Char → Nat) : Frag → Pt × Pt
+/-- `Bounds::bounds`: `(mins, maxs)` of the axis-aligned bounding box. `len` is the length the
+code attributes to a text (`String::len`, bytes) and `unit` the value of `1.0` in the current
+units (1000 before scaling): a `Text` is as wide as `len * 1.0` whatever the scale
+(`text.rs:143-145`), a `CellText` covers `len` cells. -/
+def Frag.bounds (len : List Char → Nat) (unit : Int) : Frag → Pt × Pt
   | .line s e _ => (⟨min s.x e.x, min s.y e.y⟩, ⟨max s.x e.x, max s.y e.y⟩)
   | .markerLine s e _ _ _ => (⟨min s.x e.x, min s.y e.y⟩, ⟨max s.x e.x, max s.y e.y⟩)
   | .circle c r _ => (⟨c.x - r, c.y - r⟩, ⟨c.x + r, c.y + r⟩)
@@ -88,8 +89,8 @@ def Frag.bounds (byteLen : List Char → Nat) : Frag → Pt × Pt
      ⟨listMax (pts.map (·.x)) 0, listMax (pts.map (·.y)) 0⟩)
   | .rect s e _ _ _ => (⟨min s.x e.x, min s.y e.y⟩, ⟨max s.x e.x, max s.y e.y⟩)
   | .cellText st c =>
-    (st.origin, ⟨(st.x + (byteLen c : Int) + 1) * 1000, (st.y + 1) * 2000⟩)
-  | .text st c => (st, ⟨st.x + (byteLen c : Int) * 1000, st.y⟩)
+    (st.origin, ⟨(st.x + (len c : Int) + 1) * 1000, (st.y + 1) * 2000⟩)
+  | .text st c => (st, ⟨st.x + (len c : Int) * unit, st.y⟩)
 
 /-- `Fragment::rank` -/
 def Frag.rank : Frag → Nat
@@ -121,13 +122,13 @@ namespace Svgbob
 /-- `Fragment::cmp` (`fragment.rs:612-633`): same-kind comparisons for line, arc, circle, polygon,
 rect, text, cell text; everything else (including two marker lines) by bounding box and rank.
 `none` = the comparison would index an empty polygon (`polygon.rs:158-165`, a panic site). -/
-def Frag.cmp? (bl : List Char → Nat) : Frag → Frag → Option Ordering
+def Frag.cmp? (bl : List Char → Nat) (unit : Int) : Frag → Frag → Option Ordering
   | .line s e b, .line s' e' b' => some ((s.cmp s').then ((e.cmp e').then (cmpBool b b')))
   | .arc s e r m sw, .arc s' e' r' m' sw' =>
     some ((s.cmp s').then ((e.cmp e').then ((compare r r').then ((cmpBool m m').then (cmpBool sw sw')))))
   | .circle c r f, .circle c' r' f' =>
-    let a := Frag.bounds bl (.circle c r f)
-    let b := Frag.bounds bl (.circle c' r' f')
+    let a := Frag.bounds bl unit (.circle c r f)
+    let b := Frag.bounds bl unit (.circle c' r' f')
     some ((a.1.cmp b.1).then ((a.2.cmp b.2).then ((compare r r').then (cmpBool f f'))))
   | .polygon pts f _, .polygon pts' f' _ =>
     if pts == pts' then some .eq
@@ -140,12 +141,12 @@ def Frag.cmp? (bl : List Char → Nat) : Frag → Frag → Option Ordering
   | .text s c, .text s' c' => some ((s.cmp s').then (cmpListWith cmpChar c c'))
   | .cellText s c, .cellText s' c' => some ((s.cmp s').then (cmpListWith cmpChar c c'))
   | a, b =>
-    let ba := a.bounds bl
-    let bb := b.bounds bl
+    let ba := a.bounds bl unit
+    let bb := b.bounds bl unit
     some ((ba.1.cmp bb.1).then ((ba.2.cmp bb.2).then (compare a.rank b.rank)))
 
 /-- total version used where the table lemma `polygons_nonempty` excludes the panic -/
-def Frag.cmp (bl : List Char → Nat) (a b : Frag) : Ordering := (Frag.cmp? bl a b).getD .eq
+def Frag.cmp (bl : List Char → Nat) (a b : Frag) : Ordering := (Frag.cmp? bl 1000 a b).getD .eq
 
 /-- `Fragment::eq` is `cmp == Equal` -/
 def Frag.beq (bl : List Char → Nat) (a b : Frag) : Bool := Frag.cmp bl a b == .eq
